@@ -10,7 +10,8 @@
    without a dump (event "rawcmd", c.k = "prove") and judged here.                                        *)
 EXTENDS EggAbs_Trace
 
-VARIABLE base     \* the database the session's facts alone generate (no rule has run): EggAbs over the non-run commands
+VARIABLES base,   \* the database the session's facts alone generate (no rule has run): EggAbs over the non-run commands
+          ung      \* the database generated when the rules that have a primitive guard (a cmp atom) never fire
 
 IsProve == l <= Len(Rec) /\ Rec[l].e = "rawcmd" /\ Has(Rec[l], "c") /\ Has(Rec[l].c, "k") /\ Rec[l].c.k = "prove"
 
@@ -24,6 +25,18 @@ BaseAfter(ev) ==
        ELSE IF c.k = "subsume" THEN CmdSubsume(base, c).rows
        ELSE base
 
+Guarded == {r \in 1 .. Len(prog.rules) : \E k \in 1 .. Len(prog.rules[r].body) : prog.rules[r].body[k].k = "cmp"}
+UngAfter(ev) ==
+  IF ev.e = "decl" THEN {}
+  ELSE IF ev.e # "cmd" \/ ev.res # "ok" THEN ung
+  ELSE LET c == ev.c IN
+       IF c.k = "ins" THEN CmdIns(ung, c).rows
+       ELSE IF c.k = "union" THEN (LET x == CmdUnion(ung, c) IN IF x.ok THEN x.rows ELSE ung)
+       ELSE IF c.k = "set" THEN (LET x == CmdSet(ung, c) IN IF x.ok THEN x.rows ELSE ung)
+       ELSE IF c.k = "subsume" THEN CmdSubsume(ung, c).rows
+       ELSE IF c.k = "run" THEN (LET x == CmdRun(ung, c, active \ Guarded) IN IF x.ok THEN x.rows ELSE ung)
+       ELSE ung
+
 \* ev.pv (when present): verdict of the in-tree checker on the proof that (prove ..) extracts, against a reference
 \* program installed with set_proof_checking_program: "orig" the session's own program, "nofacts" the program without
 \* its top-level facts, "norules" without its rules ("acc" accepted / "rej" rejected / "setup-failed")
@@ -32,6 +45,7 @@ TProve ==
   /\ LET ev == Rec[l]
          holds == Matches(rows, ev.c.facts, FALSE) # {}
          holdsBase == Matches(base, ev.c.facts, FALSE) # {}
+         holdsUng == Matches(ung, ev.c.facts, FALSE) # {}
      IN /\ (ev.res = "panic") => Bad("panicked")
         /\ (~tainted /\ holds /\ ev.res = "err") => Bad("prove-failed-but-the-facts-match")
         /\ (~tainted /\ ~holds /\ ev.res = "ok") => Bad("prove-succeeded-but-the-facts-do-not-match")
@@ -39,8 +53,10 @@ TProve ==
               /\ (ev.pv.orig = "rej") => Bad("checker-rejects-the-proof-against-the-original-program")
               /\ (ev.pv.nofacts = "acc") => Bad("checker-accepts-the-proof-against-a-program-without-its-facts")
               /\ (~holdsBase /\ ev.pv.norules = "acc") => Bad("checker-accepts-the-proof-against-a-program-without-its-rules")
-  /\ UNCHANGED <<vars, tainted, declf, cur, other, cmpst, sch, prev, base>>
+              \* "guards": the reference program has every primitive guard of every rule negated
+              /\ (Has(ev.pv, "guards") /\ ~holdsUng /\ ev.pv.guards = "acc") => Bad("checker-accepts-the-proof-against-a-program-with-negated-rule-guards")
+  /\ UNCHANGED <<vars, tainted, declf, cur, other, cmpst, sch, prev, base, ung>>
 
-PNext == (~IsProve /\ TraceNext /\ base' = BaseAfter(Rec[l])) \/ TProve
-PSpec == TraceInit /\ base = {} /\ [][PNext]_<<vars, l, tainted, declf, cur, other, cmpst, sch, prev, base>>
+PNext == (~IsProve /\ TraceNext /\ base' = BaseAfter(Rec[l]) /\ ung' = UngAfter(Rec[l])) \/ TProve
+PSpec == TraceInit /\ base = {} /\ ung = {} /\ [][PNext]_<<vars, l, tainted, declf, cur, other, cmpst, sch, prev, base, ung>>
 =============================================================================
